@@ -37,6 +37,7 @@ type Prog struct {
 
 	implCache map[string][]*ssa.Function
 	nilFns    map[*ssa.Function]bool // functions whose error result is always nil
+	guardHelpers map[*ssa.Function]bool
 }
 
 type loadOpts struct {
